@@ -29,7 +29,7 @@ ASSUMPTIONS = ["single-threaded interleavings of generator steps only: the harne
                "a use-after-unmap is detected when it crashes the forked child or yields wrong values; there is no sanitizer under CPython",
                "'dropped' generators are finalised by CPython reference counting (+ gc.collect())"]
 EXHAUSTIVE = None
-MUST_HIT = ['write-next-to-generator-position', 'mixed-access-modes', 'failing-access-while-shared', 'owner-finishes-before-borrower-advances', 'generator-dropped', 'write-while-two-generators-live', 'ctx-exit-before-generator-advance',
+MUST_HIT = ['generator-advanced-thousands-of-times', 'write-next-to-generator-position', 'mixed-access-modes', 'failing-access-while-shared', 'owner-finishes-before-borrower-advances', 'generator-dropped', 'write-while-two-generators-live', 'ctx-exit-before-generator-advance',
             'generator-closed-early', 'nested-contexts', 'started-inside-context-advanced-after-exit']
 N = 131072      # int64 elements = 1 MB (well above malloc's mmap threshold, so an unmapped region is really gone); thorough: 4 MB
 GPARAMS = [dict(chunklen=25000), dict(chunklen=17500, stepsize=37500, startindex=250, endindex=125000),
@@ -45,7 +45,9 @@ def psets():
             [dict(chunklen=c * 6 // 5, stepsize=c * 2 // 5), dict(chunklen=300, stepsize=100, startindex=100, endindex=5000),
              dict(chunklen=500, startindex=0, endindex=20000)],
             # 3 = generators with one or two frames only, so that short schedules reach 'closed right after its LAST chunk'
-            [dict(chunklen=N), dict(chunklen=N // 2), dict(chunklen=N // 2 + 1)]]
+            [dict(chunklen=N), dict(chunklen=N // 2), dict(chunklen=N // 2 + 1)],
+            # 4 = a generator with many thousands of small frames next to coarse ones (advanced thousands of times by 'nextn')
+            [dict(chunklen=N // 4), dict(chunklen=8), dict(chunklen=16, stepsize=8, endindex=N // 2)]]
 
 
 def _scale(ctx):
@@ -81,10 +83,10 @@ def normalise(actions, ngen=3, maxdepth=2):
                 continue
             started.add(a[1])
             alive.add(a[1])
-        elif k in ('next', 'close', 'drop'):
+        elif k in ('next', 'close', 'drop', 'nextn', 'readhook', 'writehook'):
             if a[1] not in alive:
                 continue
-            if k != 'next':
+            if k not in ('next', 'nextn'):
                 alive.discard(a[1])
         elif k == 'enter':
             if depth >= maxdepth:
@@ -105,6 +107,8 @@ def classify(actions, finish, out):
     started_in_ctx = set()
     nontrivial = False
     seq = list(actions) + [['finish'] + list(f) for f in finish]
+    if any(a[0] == 'nextn' and a[2] >= 4000 for a in actions):
+        out.cls('generator-advanced-thousands-of-times')
     live = set()
     depth = 0
     finished_first_owner = False
@@ -114,7 +118,7 @@ def classify(actions, finish, out):
             k, a = a[1], [a[1], a[2]] if len(a) > 2 else [a[1]]
         if k == 'start':
             pass
-        elif k == 'next':
+        elif k in ('next', 'nextn'):
             g = a[1]
             if ('g', g) not in users:
                 users.append(('g', g))
@@ -226,6 +230,41 @@ def child_run(path, actions, finish, hmode='r+', pset=0):
             v = check_chunk(g, chunk)
             if v:
                 return v
+        elif k in ('readhook', 'writehook'):
+            # an element access whose index object, while NumPy evaluates it (__index__), closes / exhausts generator g - user code
+            # running in the middle of the access, on the same array object
+            g, how = act[1], act[2]
+            box = []
+
+            class _Idx:
+                def __index__(self_):
+                    if g in gens and not box:
+                        box.append(finish_gen(g, how))
+                    return 7
+            if k == 'readhook':
+                got = a[_Idx()]
+                if got != model[7]:
+                    return {'kind': 'wrong-element', 'callsite': 'getitem', 'detail': f'a[index object] = {got}, model {model[7]}'}
+            else:
+                a[_Idx()] = -77
+                model[7] = -77
+            if box and box[0]:
+                return box[0]
+        elif k == 'nextn':
+            g = act[1]
+            for _ in range(act[2]):
+                if g not in gens:
+                    break
+                try:
+                    chunk = next(gens[g])
+                except StopIteration:
+                    if pos[g] != len(frames[g]):
+                        return {'kind': 'missing-chunks', 'callsite': 'iterchunks', 'detail': f'generator {g} stopped early'}
+                    gens.pop(g)
+                    break
+                v = check_chunk(g, chunk)
+                if v:
+                    return v
         elif k in ('close', 'drop'):
             if act[1] in gens:
                 v = finish_gen(act[1], k)
@@ -308,7 +347,7 @@ def execute(ctx, spec):
     hmode = spec.get('hmode', 'r+')
     if hmode != 'r+' or any(a[0] == 'enter' and len(a) > 1 for a in actions):
         # mixed access modes: whether a write is possible depends on who opened the shared map first; keep to reads
-        actions = [a for a in actions if a[0] not in ('write', 'wnear')]
+        actions = [a for a in actions if a[0] not in ('write', 'wnear', 'writehook')]
         out.cls('mixed-access-modes')
     if any(a[0] == 'badread' for a in actions):
         out.cls('failing-access-while-shared')
@@ -426,6 +465,12 @@ def st_schedule(draw):
     acts = []
     for _ in range(n):
         k = draw(st.sampled_from(['start', 'next', 'next', 'next', 'close', 'drop', 'enter', 'exit', 'read', 'write', 'badread', 'wnear']))
+        if k == 'wnear' and draw(st.integers(0, 5)) == 1:
+            acts.append([draw(st.sampled_from(['readhook', 'writehook'])), draw(st.integers(0, 2)), draw(st.sampled_from(['close', 'exhaust', 'drop']))])
+            continue
+        if k == 'wnear' and draw(st.integers(0, 5)) == 0:
+            acts.append(['nextn', draw(st.integers(0, 2)), draw(st.sampled_from([50, 1000, 4100, 4200]))])
+            continue
         if k == 'wnear':
             acts.append(['wnear', draw(st.integers(0, 2)), draw(st.sampled_from([-1, -2, -50, -150, -250, 0, 1, 10, 100, 400, 600, 3000])), draw(st.integers(-1000, 1000))])
             continue
@@ -442,7 +487,7 @@ def st_schedule(draw):
             acts.append([k])
     order = draw(st.permutations([0, 1, 2, 'x', 'y']))
     finish = [['exit'] if o in ('x', 'y') else [draw(st.sampled_from(['exhaust', 'close', 'drop'])), o] for o in order]
-    return {'actions': acts, 'finish': finish, 'hmode': draw(st.sampled_from(['r+', 'r+', 'r'])), 'pset': draw(st.sampled_from([0, 1, 2, 3]))}
+    return {'actions': acts, 'finish': finish, 'hmode': draw(st.sampled_from(['r+', 'r+', 'r'])), 'pset': draw(st.sampled_from([0, 1, 2, 3, 4]))}
 
 
 def fixed_specs():
@@ -457,6 +502,15 @@ def fixed_specs():
             yield {'actions': acts, 'finish': [['exhaust', gb]], 'pset': 3}
             yield {'actions': [['enter']] + acts + [['exit']], 'finish': [['close', gb]], 'pset': 3}
             yield {'actions': acts[:-2] + [['write', 5, -3], ['next', gb]], 'finish': [['drop', gb]], 'pset': 3}
+    # an element access during which the last other holder of the map goes away (closed / exhausted from inside __index__)
+    for g, how, kind_ in itertools.product((0, 1), ('close', 'exhaust', 'drop'), ('readhook', 'writehook')):
+        yield {'actions': [['start', g], ['next', g], [kind_, g, how], ['read', 9]], 'finish': [], 'pset': 3}
+        yield {'actions': [['start', 0], ['start', 1], ['next', 0], ['next', 1], [kind_, g, how], ['next', 1 - g], ['read', 9]], 'finish': [['exhaust', 1 - g]], 'pset': 0}
+    # a fine-grained generator advanced thousands of times while a coarse one is suspended mid-way, then the coarse one goes on
+    for fine, nadv in ((1, 4200), (1, 9000), (2, 5000)):
+        acts = [['start', 0], ['next', 0], ['start', fine], ['nextn', fine, nadv], ['next', 0], ['read', 5], ['nextn', fine, 100], ['next', 0]]
+        yield {'actions': acts, 'finish': [['exhaust', 0], ['close', fine]], 'pset': 4}
+        yield {'actions': [['enter']] + acts + [['exit'], ['next', 0]], 'finish': [['close', fine], ['exhaust', 0]], 'pset': 4}
     for pset in (1, 2):
         for order in ([0, 1, 0, 1, 2, 0, 1, 2, 2], [1, 1, 0, 2, 0, 1, 2, 0]):
             acts = [['start', 0], ['start', 1], ['start', 2]] + [['next', g] for g in order]
